@@ -20,34 +20,44 @@ Theorems about it: `Lemmas/Heap.lean`.
 namespace Elvis.Heap
 variable {α : Type}
 
+/-- loop of `sift_up(0, pos)`, structurally recursive on `fuel` (`pos ≤ fuel` is always enough:
+    the position at least halves in every round) -/
+def siftUpF (le : α → α → Bool) : Nat → (d : Array α) → (pos : Nat) → pos < d.size → Array α
+  | 0, d, _, _ => d
+  | fuel + 1, d, pos, h =>
+    if hp : 0 < pos then
+      if le d[pos] (d[(pos - 1) / 2]'(by omega)) then d
+      else
+        siftUpF le fuel (d.swap pos ((pos - 1) / 2) h (by omega)) ((pos - 1) / 2)
+          (by rw [Array.size_swap]; omega)
+    else d
+
 /-- `sift_up(0, pos)` -/
 def siftUp (le : α → α → Bool) (d : Array α) (pos : Nat) (h : pos < d.size) : Array α :=
-  if hp : 0 < pos then
-    if le d[pos] (d[(pos - 1) / 2]'(by omega)) then d
-    else
-      siftUp le (d.swap pos ((pos - 1) / 2) h (by omega)) ((pos - 1) / 2)
-        (by rw [Array.size_swap]; omega)
-  else d
-termination_by pos
-decreasing_by omega
+  siftUpF le pos d pos h
 
-/-- `sift_down_to_bottom(pos)` followed by its final `sift_up(0, hole position)` -/
-def siftDownToBottom (le : α → α → Bool) (d : Array α) (pos : Nat) (h : pos < d.size) : Array α :=
-  if h2 : 2 * pos + 2 < d.size then
-    -- both children exist: `child += (data[child] <= data[child+1]) as usize`
-    if le (d[2 * pos + 1]'(by omega)) (d[2 * pos + 2]'h2) then
-      siftDownToBottom le (d.swap pos (2 * pos + 2) h h2) (2 * pos + 2)
-        (by rw [Array.size_swap]; exact h2)
-    else
-      siftDownToBottom le (d.swap pos (2 * pos + 1) h (by omega)) (2 * pos + 1)
+/-- loop of `sift_down_to_bottom(pos)` followed by its final `sift_up(0, hole position)`;
+    structurally recursive on `fuel` (`d.size ≤ pos + fuel` is always enough: the position grows) -/
+def siftDownF (le : α → α → Bool) : Nat → (d : Array α) → (pos : Nat) → pos < d.size → Array α
+  | 0, d, pos, h => siftUp le d pos h
+  | fuel + 1, d, pos, h =>
+    if h2 : 2 * pos + 2 < d.size then
+      -- both children exist: `child += (data[child] <= data[child+1]) as usize`
+      if le (d[2 * pos + 1]'(by omega)) (d[2 * pos + 2]'h2) then
+        siftDownF le fuel (d.swap pos (2 * pos + 2) h h2) (2 * pos + 2)
+          (by rw [Array.size_swap]; exact h2)
+      else
+        siftDownF le fuel (d.swap pos (2 * pos + 1) h (by omega)) (2 * pos + 1)
+          (by rw [Array.size_swap]; omega)
+    else if h1 : 2 * pos + 2 = d.size then
+      -- `if child == end - 1`: a lone left child
+      siftUp le (d.swap pos (2 * pos + 1) h (by omega)) (2 * pos + 1)
         (by rw [Array.size_swap]; omega)
-  else if h1 : 2 * pos + 2 = d.size then
-    -- `if child == end - 1`: a lone left child
-    siftUp le (d.swap pos (2 * pos + 1) h (by omega)) (2 * pos + 1) (by rw [Array.size_swap]; omega)
-  else siftUp le d pos h
-termination_by d.size - pos
-decreasing_by
-  all_goals (simp only [Array.size_swap]; omega)
+    else siftUp le d pos h
+
+/-- `sift_down_to_bottom(pos)` -/
+def siftDownToBottom (le : α → α → Bool) (d : Array α) (pos : Nat) (h : pos < d.size) : Array α :=
+  siftDownF le d.size d pos h
 
 /-- `BinaryHeap::push` -/
 def push (le : α → α → Bool) (d : Array α) (x : α) : Array α :=
